@@ -337,3 +337,10 @@ func init() {
 		r.add("DBGP", "debug", "x", "x", nil, nil, "")
 	})
 }
+
+func init() {
+	register("DBGF", "dump container fields", func(c *Ctx, r *Report) {
+		os.Stdout.Write(c.W.dumpContainerFields())
+		r.add("DBGF", "debug", "x", "x", nil, nil, "")
+	})
+}
